@@ -486,6 +486,11 @@ def scen_sexlevels(rng, infer, fixon=False):
             ab += [[24, 10**7, 10**7 + 2000, "Antitarget"]]
         fix = rng.choice([(True, True, True), (True, False, False), (False, True, False), (True, True, False)])
         gcsrc = "cnn" if fix[0] else "none"
+        if not infer and rng.random() < 0.4:
+            # gc / rmask from a real FASTA: compact coordinates so that the contigs stay small
+            gcsrc = "fasta"
+            fix = rng.choice([(True, True, True), (True, False, True), (False, False, True), (True, False, False)])
+            tb, ab = _compact(rng, tb, ab)
     else:
         nchrom = rng.choice([2, 3, 4])
         per = (3 * nx) // nchrom + 1 if infer else [1, 2, 3, 4]
@@ -497,8 +502,28 @@ def scen_sexlevels(rng, infer, fixon=False):
         anti = _anti_choice(rng, ab)
         fix = (False, False, False)
         gcsrc = "none"
-    return gen_cohort(rng, n=n, sexes=sexes, tb=tb, ab=ab, anti=anti, U=U, A=A, hapx=rng.random() < 0.5, given=given,
-                      fix=fix, pfx=rng.choice(["chr", ""]), profile=0, gcsrc=gcsrc, ynull=rng.choice([0.0, 0.5, 1.0]))
+    inp = gen_cohort(rng, n=n, sexes=sexes, tb=tb, ab=ab, anti=anti, U=U, A=A, hapx=rng.random() < 0.5, given=given,
+                     fix=fix, pfx=rng.choice(["chr", ""]), profile=0, gcsrc=gcsrc, ynull=rng.choice([0.0, 0.5, 1.0]))
+    if gcsrc == "fasta":
+        ends = {}
+        for b in tb + ab:
+            ends[b[0]] = max(ends.get(b[0], 0), b[2])
+        inp["fa"] = [[c, _rand_seq(rng, ends[c] + rng.choice([0, 3]))] for c in sorted(ends)]
+        inp["fawidth"] = rng.choice([50, 60, 61])
+    return inp
+
+
+def _compact(rng, tb, ab):
+    """the same bins re-placed densely (sizes 6..40, gaps 0..20), targets and antitargets interleaved"""
+    pos = {}
+    out = {"t": [], "a": []}
+    tagged = sorted([(b, "t") for b in tb] + [(b, "a") for b in ab], key=lambda x: (x[0][0], x[0][1], x[0][2]))
+    for (c, s, e, g), k in tagged:
+        p = pos.get(c, rng.choice([0, 2]))
+        w = rng.choice([6, 10, 17, 40])
+        out[k].append([c, p, p + w, g])
+        pos[c] = p + w + rng.choice([0, 3, 20])
+    return out["t"], out["a"]
 
 
 def scen_depthonly(rng, fixon=False):
